@@ -651,3 +651,13 @@ def check(ctx) -> None:
     rule_m3(ctx)
     rule_m4(ctx)
     rule_m5(ctx)
+    # M11: product and rules are written to the reaction whose fragments they were computed from: lists joined by position
+    # derive from the same selection (shared with C06-B3)
+    from ..pipeline import Pipeline
+    from . import c06
+
+    c06.rule_b3(ctx, Pipeline(ctx), "C09-M11")
+    # M12: the rule conditions see the molecule they are asked about: no state shared between calls on the merge path
+    # (module-level tables keyed by less than their inputs), shared with C06-B4
+    scope12 = {q for q in ctx.res.reachable([MERGE], ctx.graph) if q.startswith("synrbl.")}
+    c06.rule_b4(ctx, scope12, "C09-M12", class_level=False)
